@@ -431,14 +431,14 @@ func (SignatureProofScheme) ValidateFinalizedProof(
 	}
 
 	k := int(binary.BigEndian.Uint16(mainKeyID[:2]))
-	if k > nKeys {
-		// Invalid/corrupted key.
-		return nil, false
-	}
 
 	// Scratch combination index to reuse on every proof we process.
 	var combIndex big.Int
 	combIndex.SetBytes(mainKeyID[2:])
+	if !isValidCombination(nKeys, k, &combIndex) {
+		// Invalid/corrupted key.
+		return nil, false
+	}
 
 	// The bits indicating which keys in the original set have been used so far.
 	// This value is used throughout the rest loop.
@@ -507,7 +507,7 @@ func (SignatureProofScheme) ValidateFinalizedProof(
 		// First get the reduced key set.
 		reducedKeys, projections = createKeyProjection(proof.Keys, &usedOriginalBits)
 		// Then determine the bit set mapping this combination index into the reduced key set.
-		if k > len(reducedKeys) {
+		if !isValidCombination(len(reducedKeys), k, &combIndex) {
 			// Corrupt/invalid key ID.
 			return nil, false
 		}
@@ -560,6 +560,20 @@ func (SignatureProofScheme) ValidateFinalizedProof(
 	}
 
 	return signBitsByHash, true
+}
+
+// isValidCombination reports whether k and combIndex, as read from an untrusted key ID,
+// identify one of the "nKeys choose k" combinations.
+// Anything else must be rejected before calling decodeCombinationIndex,
+// which panics on k=0 and on an out of range index.
+func isValidCombination(nKeys, k int, combIndex *big.Int) bool {
+	if k < 1 || k > nKeys {
+		return false
+	}
+
+	var nCombinations big.Int
+	binomialCoefficient(nKeys, k, &nCombinations)
+	return combIndex.Cmp(&nCombinations) < 0
 }
 
 // decodeCombinationIndex accepts n, k, and the combination index,
